@@ -137,6 +137,23 @@ def check_case(inputs, output, sd, nested, sel, arrays, full, res):
                                if i not in sq])
         if not ref.exact_equal(got, want_full):
             bad.append((label, ref.describe_mismatch(got, want_full)))
+    # (iii-b) the same reassembly on (mantissa, exponent) pairs
+    # (positive data: no intermediate can cancel to exactly zero, which is
+    # outside the documented domain of check_zero=False)
+    try:
+        pos = [np.abs(a) for a in arrays]
+        want_pos = ref.dense_einsum(inputs, output, sd, pos, fixed=proj)
+        m, e = tree.contract(pos, strip_exponent=True)
+        got = np.asarray(m, dtype="float64") * 10.0 ** float(e)
+        if sq:
+            got = got.reshape([d for i, d in enumerate(got.shape)
+                               if i not in sq])
+        if got.shape != want_pos.shape or not np.allclose(
+                got, want_pos, rtol=1e-9, atol=0):
+            bad.append(("contract-strip_exponent",
+                        ref.describe_mismatch(got, want_pos)))
+    except Exception as ex:
+        bad.append(("contract-strip_exponent-raises", repr(ex)))
     # (iv) chunks
     out_sliced = [ix for ix in tree.sliced_inds if ix in output]
     want_chunk_keys = set(itertools.product(
